@@ -225,7 +225,11 @@ theorem translated_rf_supported :
 /-- `RandomFile.eof` as written in the source is the model's `eof` -/
 theorem translated_rfEof_eq (s : RF) :
     Gen.Translated.rfEof (s.recpos : Int) (s.reclen : Int) (lof s : Int) = eof s := by
-  simp only [Gen.Translated.rfEof, eof, ← Int.natCast_mul, gt_iff_lt, Int.ofNat_lt]
+  -- written so that an equivalent re-orientation of the comparison in the source (`lof < recpos * reclen`) still proves
+  unfold Gen.Translated.rfEof eof
+  have hm : ((s.recpos : Int) * (s.reclen : Int)) = ((s.recpos * s.reclen : Nat) : Int) := by simp
+  simp only [hm, decide_eq_decide]
+  omega
 
 /-- `_set_record_pos(pos)` for an accepted record number (`1 ≤ p`, `check_pos_exact`): the host file offset it
 seeks to and the record pointer it stores are the model's -/
